@@ -644,6 +644,16 @@ func TestEngineCrypto(t *testing.T) {
 			if dgP2, _ := digestOf(pb2); dgP2 == dgA || dgP2 != dg2 {
 				p.Oracle("C19-eip712-collision", "perturbation %s: the protobuf sign document renders to %s, the amino one to %s, the unperturbed one to %s", pt.name, dgP2, dg2, dgA)
 			}
+			// C06: sequence, account number and chain id are what make a signed Cosmos transaction single-use on one chain; a
+			// signature made for the document must not authorise the same body at another sequence / account / chain,
+			// in either sign mode (the node verifies DIRECT-mode documents of eth_secp256k1 accounts through the same rendering)
+			if pt.name == "sequence" || pt.name == "account-number" || pt.name == "chain-epoch" || pt.name == "chain-revision" {
+				dgP2, _ := digestOf(pb2)
+				if dgP2 == dgP || dg2 == dgA || pub1.VerifySignature(pb2, sigE) || pub1.VerifySignature(am2, sigE) || pub1.VerifySignature(pb2, sigP) || pub1.VerifySignature(am2, sigP) {
+					p.Oracle("C06-signed-cosmos-tx-replayable", "perturbation %s: the signature (or EIP-712 rendering) of %s also stands for %s (protobuf digests %s / %s)", pt.name, am, am2, dgP, dgP2)
+				}
+				p.Count("replay-binding:" + pt.name)
+			}
 		}
 		// ---- what must verify
 		must := []struct {
